@@ -6,6 +6,7 @@ from sa.resolve import walk_function
 from sa.report import Renamed
 from rules import C04, C02
 
+TECHNIQUE = 'static analysis (ast): queue typestate (append right / pop left, one each per step, rebuilt at reset) by CFG path counts and dominance, kind analysis of null actions per space class, ordering of latent events / execution / non-latent events'
 EXPLANATION = (
     "Decides the structural clauses of C08: (S1) TradingEnv.reset unconditionally rebuilds the action queue as deque(d null actions, maxlen=d+1) "
     "(LIN: maxlen - prefill = 1, both over _steps_delay); TradingEnv.step inserts and removes exactly one action per call from opposite ends "
